@@ -65,7 +65,7 @@ func runC09(c *Ctx) Info {
 			}
 		}
 	}
-	c.C.Floor("PROGRESS", nLoops-c.controlCount("PROGRESS"), 400)
+	c.C.Floor("PROGRESS", nLoops-c.controlCount("PROGRESS"), 250)
 	c.C.ExpectControl("PROGRESS")
 	if c.Dump == "advance" {
 		var ks []string
